@@ -314,11 +314,15 @@ func sameResult(u1 *url.Url, e1 error, u2 *url.Url, e2 error) bool {
 }
 
 func checkC06(baseStr, ref string) {
-	tok := "PR " + defaultCfg.Tok + " " + xs(baseStr) + " " + xs(ref)
 	b, err := url.Parse(baseStr)
 	if err != nil {
 		return
 	}
+	checkC06On(b, baseStr, ref, "PR "+defaultCfg.Tok+" "+xs(baseStr)+" "+xs(ref))
+}
+
+// checkC06On evaluates the laws for one reference against the base VALUE b (which may already have been used as a base)
+func checkC06On(b *url.Url, baseStr, ref, tok string) {
 	orc.Eval("C06")
 	u1, e1 := url.ParseRef(baseStr, ref)
 	u2, e2 := defaultCfg.Parser.ParseRef(baseStr, ref)
@@ -385,8 +389,15 @@ func streamC06(r *Rand, n int, o *Out) {
 	for _, b := range basePool {
 		h := &Hist{}
 		k := h.ParsePkg(b)
+		// the same base value is reused for every reference: a resolution must not leave anything behind in it
+		shared, serr := url.Parse(b)
+		toks := "P " + defaultCfg.Tok + " " + xs(b)
 		for _, ref := range relPool {
 			checkC06(b, ref)
+			if serr == nil {
+				toks += " ; R 0 " + xs(ref)
+				checkC06On(shared, b, ref, toks)
+			}
 			if k >= 0 {
 				h.Resolve(k, ref)
 			}
@@ -1441,7 +1452,7 @@ func streamC15(r *Rand, n int, o *Out) {
 // rotating with the seed); `check` names the per-state oracle to evaluate, `emit` receives every executed history
 func setterPairs(r *Rand, n int, emit func(h *Hist), check string) {
 	starts := []string{"http://h/", "https://u:p@h:8/a/b?q#f", "file:///C:/x", "file://h/x", "sc://h/p", "sc:/p", "sc:opaque", "sc://", "ftp://h:21/", "ws://h", "sc:opaque ?q#f", "sc:/.//p", "http://[::1]/", "http://1.2.3.4:80/",
-		"sc://example.net:0/path", "https://h:0/p", "sc://u@h:0", "http://localhost/C|/x"}
+		"sc://example.net:0/path", "https://h:0/p", "sc://u@h:0", "http://localhost/C|/x", "sc:   #f", "data:  ?q#f", "sc: ?q", "sc:a  b  #f", "sc://:pw@h/", "sc://h"}
 	vals := [][]string{{"file", "http:", "sc", "wss", "1x", ""}, {"u", "", "é:@"}, {"p", "", "/:"}, {"h2:99", "", "[::1]", "h3/x", "1.2.3", "a b", "h:99999", "h:0"},
 		{"h2", "", "x:8", "0x7f.1", "xn--a", "localhost"}, {"80", "", "8080x", "65536", "443", "0", "a"}, {"/x/../y", "", "a b", "//x", "C|/"}, {"q=1", "", "?a b'", "#"}, {"f", "", "#g h", "`"}}
 	cnt := 0
